@@ -826,6 +826,41 @@ func Run(r *mc.Run) {
 				fmt.Sprintf("members stored in the order %v; _gpgorigin is K1's valid signature over their concatenation in that order", ns),
 				append(ms, sm), []SigInfo{si}, "origin", []string{"K1"}, false))
 		}
+		// signature members made of SEVERAL packets (binary detached signatures concatenated): a package verifies only if
+		// some packet by a keyring key is over the right bytes
+		{
+			other := cat(bin, ctl, dat[:len(dat)/2])
+			type pk struct {
+				key   string
+				what  string
+				bytes []byte
+			}
+			right := func(k string) pk { return pk{k, "the right bytes", cat(bin, ctl, dat)} }
+			empty := func(k string) pk { return pk{k, "the empty message", nil} }
+			wrong := func(k string) pk { return pk{k, "other bytes", other} }
+			onlyData := func(k string) pk { return pk{k, "the data member only", dat} }
+			multi := [][]pk{
+				{wrong("K1"), empty("K1")}, {empty("K1"), wrong("K1")}, {wrong("K1"), onlyData("K1")}, {onlyData("K1"), empty("K1")},
+				{wrong("K2"), empty("K1")}, {empty("K2"), wrong("K1")}, {wrong("K1"), empty("K2")}, {right("K2"), empty("K1")}, {right("K2"), wrong("K1")},
+				{right("K1"), wrong("K1")}, {wrong("K1"), right("K1")}, {right("K2"), right("K1")}, {wrong("K2"), right("K1")}, {right("K1"), empty("K2")},
+				{wrong("K1"), wrong("K2"), empty("K1")}, {wrong("K2"), wrong("K1"), empty("K2")}, {empty("K1"), empty("K1"), empty("K1")}, {wrong("K1"), empty("K1"), right("K1")},
+				{empty("K1")}, {empty("K2"), empty("K2")},
+			}
+			for _, m := range multi {
+				var data []byte
+				var sigs []SigInfo
+				var desc []string
+				for _, p := range m {
+					sm, si := e.sigMember("origin", p.key, p.bytes)
+					data = append(data, sm.Data...)
+					sigs = append(sigs, si)
+					desc = append(desc, p.key+" over "+p.what)
+				}
+				ins = append(ins, e.mk(b, "coverage", fmt.Sprintf("signature member of %d packets: %s", len(m), strings.Join(desc, "; ")),
+					"_gpgorigin holds the packets ["+strings.Join(desc, "; ")+"]",
+					append(append([]gen.ArMember(nil), b.mem...), gen.ArMember{Name: "_gpgorigin", Data: data}), sigs, "origin", []string{"K1"}, false))
+			}
+		}
 		for _, a := range alts {
 			sm, si := e.sigMember("origin", "K1", a.b)
 			ins = append(ins, e.mk(b, "coverage", "signature over "+a.name, "_gpgorigin is K1's valid signature over "+a.name,
@@ -833,7 +868,7 @@ func Run(r *mc.Run) {
 		}
 	}
 	ins = e.widen(ins, 1, otherRings)
-	e.scenario("signed-byte-string", map[string]interface{}{"keyrings": fmt.Sprintf("[K1] and %v", otherRings), "bases": names(bases), "alternatives": "5 member reorderings signed in archive order + 15 wrong concatenations (subsets, permutations, extensions, truncations of debian-binary‖control‖data) + 3 unread-remainder variants on the stored base"}, ins, 4)
+	e.scenario("signed-byte-string", map[string]interface{}{"keyrings": fmt.Sprintf("[K1] and %v", otherRings), "bases": names(bases), "alternatives": "20 multi-packet signature members (1-3 packets by K1 / K2 over the right bytes, other bytes, the data member only, the empty message; every keyring) + 5 member reorderings signed in archive order + 15 wrong concatenations (subsets, permutations, extensions, truncations of debian-binary‖control‖data) + 3 unread-remainder variants on the stored base"}, ins, 4)
 }
 
 func names(bs []base) []string {
